@@ -116,6 +116,18 @@ def guard_for(path, ev_index, ev, kind, consts):
                     return "remaining() >= %d on the same buffer" % lo
             return None
         if t.akind in ("overflow", "divzero", "remzero", "overflowneg"):
+            # interval arithmetic on the operand expressions (clamped casts: `x.min(isize::MAX as usize) as isize`)
+            ty = expr.TYRANGE.get(expr.vtype(va)) if va is not None else None
+            if ty and t.akind == "overflowneg":
+                r = expr.vrange(va, consts)
+                if r and r[0] > ty[0]:
+                    return "operand range [%d, %d] excludes the type minimum" % r
+            if ty and t.akind == "overflow" and t.aop in ("Add", "Sub") and vb is not None:
+                ra, rb = expr.vrange(va, consts), expr.vrange(vb, consts)
+                if ra and rb:
+                    lo, hi = (ra[0] + rb[0], ra[1] + rb[1]) if t.aop == "Add" else (ra[0] - rb[1], ra[1] - rb[0])
+                    if ty[0] <= lo and hi <= ty[1]:
+                        return "operand ranges keep the result in [%d, %d]" % (lo, hi)
             a = expr.fold(va, consts) if va is not None else None
             b = expr.fold(vb, consts) if vb is not None else None
             if t.akind in ("divzero", "remzero"):
@@ -201,13 +213,14 @@ def guard_for(path, ev_index, ev, kind, consts):
     return None
 
 
-def audit_body(prog, body, max_visits=1, max_paths=4000):
-    """[(bb, term, kind, status, detail)] with status 'discharged' | 'open' | 'unreached'."""
+def audit_body(prog, body, max_visits=1, max_paths=4000, env=None):
+    """[(bb, term, kind, status, detail)] with status 'discharged' | 'open' | 'unreached'.
+    `env` (local -> value) specialises the exploration to the argument values every reachable caller passes."""
     sites = enumerate_sites(body)
     if not sites:
         return []
     try:
-        ps = pa.Explorer(prog, body, max_visits=max_visits, max_paths=max_paths).paths()
+        ps = pa.Explorer(prog, body, max_visits=max_visits, max_paths=max_paths).paths(env=env)
     except pa.PathExplosion:
         return [(bb, t, k, "open", "path explosion") for bb, t, k in sites]
     res = {}
